@@ -138,7 +138,11 @@ func init() {
 	flagBits := []flags.Options{flags.HelpFlag, flags.PassDoubleDash, flags.IgnoreUnknown, flags.PrintErrors, flags.PassAfterNonOption}
 	body := func(c *explore.Ctx) {
 		part := c.Choose(2)    // 0: one arbitrary byte string as a token; 1: vectors of pathological tokens
-		variant := c.Choose(4) // declaration
+		variant := c.Choose(5) // declaration (4: the declaration of 3 with every option that needs no tag-only attribute handed over by (*Group).AddOption)
+		added := variant == 4
+		if added {
+			variant = 3
+		}
 		base := c.Choose(2)    // None | Default
 		var opts flags.Options
 		if base == 1 {
@@ -152,7 +156,7 @@ func init() {
 		badEnvFirst := c.Deviate(2) == 1 // an earlier ParseArgs on the same parser failed because $C04_INT held an unconvertible value
 		var argv []string
 		if part == 0 {
-			if !c.Thorough && (variant == 1 || variant == 3 || badEnvFirst) {
+			if (!c.Thorough && (variant == 1 || variant == 3 || badEnvFirst)) || added {
 				c.Skip() // quick: the byte strings go through the first and third declaration on a fresh parser only
 			}
 			maxLen := 4
@@ -192,14 +196,19 @@ func init() {
 			cache[key] = d
 		}
 		c.Describe(func() interface{} {
-			return map[string]interface{}{"declaration_variant": variant, "options": optNames(opts), "argv": fmt.Sprintf("%q", argv), "earlier_parse_failed_on_bad_env": badEnvFirst}
+			return map[string]interface{}{"declaration_variant": variant, "options_handed_over_with_AddOption": added, "options": optNames(opts), "argv": fmt.Sprintf("%q", argv), "earlier_parse_failed_on_bad_env": badEnvFirst}
 		})
 		cfg := &ref.Config{D: d}
 		res := ref.Run(cfg, argv)
 		recordStates(c, key, res, nil)
 		var b *decl.Built
 		if variant == 3 {
-			b = d.BuildAPI()
+			if added {
+				c.Hit("every-option-added-with-AddOption")
+				b = d.BuildAdded()
+			} else {
+				b = d.BuildAPI()
+			}
 			for _, st := range b.Execs {
 				st.Err = &flags.Error{Type: flags.ErrHelp, Message: "USAGE-OF-THE-COMMAND"}
 			}
@@ -325,12 +334,12 @@ func init() {
 		Body:       body,
 		Setup:      c04Setup,
 		DevBound:   func(bool) int { return 2 },
-		Rule: "four declarations covering every option kind (flags, scalars, map, slice, four callback signatures incl. one that always returns an error, Unmarshaler, ValueValidator, choices on a string and on a bool flag, optional argument, non-ASCII and digit short names, " +
+		Rule: "four declarations (the API-built one also with every option handed over by (*Group).AddOption instead of a struct tag, for the token vectors) covering every option kind (flags, scalars, map, slice, four callback signatures incl. one that always returns an error, Unmarshaler, ValueValidator, choices on a string and on a bool flag, optional argument, non-ASCII and digit short names, " +
 			"interface-, array-, pointer-to-bool typed fields, a required option, a command with an int positional, an optional-argument option whose optional-value does not convert, a command whose only subcommand is hidden, an Unmarshaler with a value receiver, an integer with base 0 holding a value, a callback option left nil; the third declaration makes the command mandatory so that unknown words reach the unknown-command diagnosis (words of 31..33 and 64..65 characters included); the fourth is built through the API, has an executable command whose Execute returns an ErrHelp-typed error of its own, and two options (a string with a default, an int without) handed over with (*Group).AddOption; maps with named string key / value types and []*int are among the option types); option sets: None and Default with up to 2 of the 5 flags toggled (32 sets); as one more deviation the same parser first fails a parse because an environment default does not convert or is outside the option's choices (must be ErrMarshal / ErrInvalidChoice, printed exactly as PrintErrors prescribes) and is then used again; inputs: (i) every byte string of length <= 4 (quick) / <= 5 (thorough) " +
 			"over {- = a s x \" \\ 0xC3 0xA9 : 5} as a token alone, after -s, after a command word, after --; (ii) every vector of <= 2 tokens (thorough: <= 3 on the first and third declaration) over 78 pathological tokens; oracle: returns normally, error nil or typed as the CLM's fault says, " +
 			"stdout/stderr deltas exactly as PrintErrors prescribes; distinct = distinct (declaration, option set, error class, wrote stdout?, wrote stderr?, model fault)",
 		Assumptions:  []string{"os.Stdout / os.Stderr are swapped for files per worker process and offset deltas read per leaf", "declarations reflect.StructOf cannot build (unexported fields in positional structs) are outside the space"},
-		RequiredHits: []string{"print-errors", "help-printed", "foreign-positional-error", "err:unknown flag", "err:expected argument", "err:marshal", "err:no argument for bool", "err:invalid choice", "err:help", "err:required", "err:ok", "option-added-with-AddOption"},
+		RequiredHits: []string{"every-option-added-with-AddOption", "print-errors", "help-printed", "foreign-positional-error", "err:unknown flag", "err:expected argument", "err:marshal", "err:no argument for bool", "err:invalid choice", "err:help", "err:required", "err:ok", "option-added-with-AddOption"},
 		Bound:        [2]string{"byte strings <= 4, token vectors <= 2, <= 2 option-flag deviations", "byte strings <= 5, token vectors <= 3 (on two of the four declarations), <= 2 option-flag deviations"},
 		BudgetS:      [2]int{170, 1500},
 	})
